@@ -229,7 +229,7 @@ def execute(case):
             try:
                 p2 = subprocess.run([tool(case.get("tool", "xz"), case.get("shim", True))] + case["then"], cwd=wd, env=env2, stdin=subprocess.DEVNULL,
                                     stdout=subprocess.PIPE, stderr=subprocess.PIPE, timeout=60)
-                step2 = {"rc": p2.returncode, "stderr": p2.stderr.decode("utf-8", "replace"), "tree1": tree1}
+                step2 = {"rc": p2.returncode, "stderr": p2.stderr.decode("utf-8", "replace"), "tree1": tree1, "stdout": p2.stdout}
             except subprocess.TimeoutExpired:
                 step2 = {"rc": -999, "stderr": "[timeout]", "tree1": tree1}
         if so != "pipe":
